@@ -460,7 +460,7 @@ class Gen:
             return ("appc", r.choice(strs), self.expr(allow_last=after_match))
         return ("hook", r.choice(self.hooks))
 
-    def block(self, depth, loops, follow_first=frozenset(), min_consume=True):
+    def block(self, depth, loops, follow_first=frozenset(), min_consume=True, loop_body=False):
         """list of statements; returns (stmts, first, cont, nullable)"""
         r = self.r
         n = r.randint(1, self.p.max_stmts if depth == 0 else 3)
@@ -493,7 +493,7 @@ class Gen:
                     consumed = True
             if term:
                 break
-        if getattr(self.p, "closed_blocks", False) and stmts and depth > 0:
+        if getattr(self.p, "closed_blocks", False) and stmts and depth > 0 and not loop_body:
             # known finding C01 (lost finish actions): actions that follow a statement which can match nothing at the end of a
             # nested block (inside the block or right behind the enclosing statement) are lost on the path where it matches
             # nothing; close such blocks with a delimiter
@@ -584,7 +584,7 @@ class Gen:
         if k == "loop":
             self.nlabel += 1
             label = "L%d" % self.nlabel if r.random() < 0.4 else None
-            body, f, c, n = self.block(depth + 1, loops + [label], min_consume=True)
+            body, f, c, n = self.block(depth + 1, loops + [label], min_consume=True, loop_body=True)
             if f & prev_cont:
                 return None
             # make the loop leavable: add a case with break somewhere at the head with some probability
@@ -806,6 +806,16 @@ def gen_spin_candidate(rng):
         k = rng.choice(["case_else", "case_else", "optional", "try_empty", "try_act", "ifbreak", "ifbreak", "iffinish", "ifmatch", "act",
                         "lit", "lit", "nested", "wait", "foreach"])
         lit = ("lit", rng.choice(lits))
+        rx = lambda: ("re", rng.choice([("set", [(rng.choice(b"ab,;"),) * 2, (rng.choice(b"ab,;"),) * 2], True), ("any",), ("plus", ("set", [(97, 99)], False)),
+                                        ("seq", [("c", 97), ("set", [(59, 59)], True)]), ("cls", "\\w")]))
+        if k == "try_re_empty":
+            return ("try", [("match", rx())], rng.choice([None, ["nomatch"]]), [])
+        if k == "try_nested_empty":
+            return ("try", [("match", rx())], None, [("try", [("match", lit)], None, [])])
+        if k == "append_empty":
+            return ("try", [("append", "sb", rx())], rng.choice([["outofspace"], None]), rng.choice([[], [act()], [("delete", "sb")]]))
+        if k == "break_first" and depth < 2:
+            return ("loop", None, [("break", None), ("match", lit)])
         if k == "case_else":
             body = [act()] if rng.random() < 0.6 else []
             els = [] if rng.random() < 0.6 else [act()]
@@ -839,6 +849,12 @@ def gen_spin_candidate(rng):
         return ("match", lit)
     lab = "L0" if rng.random() < 0.4 else None
     body = [element(0, [lab] if lab else []) for _ in range(rng.randint(1, 4))]
+    if rng.random() < 0.2:
+        # a loop whose whole body is one regex match with an empty handler: must be rejected (combinations of several such
+        # matches are accepted and spin: known finding, kept as a witness only)
+        rxs = [("set", [(rng.choice(b"ab,;"),) * 2, (rng.choice(b"ab,;"),) * 2], True), ("any",), ("plus", ("set", [(97, 99)], False)),
+               ("seq", [("c", 97), ("set", [(59, 59)], True)]), ("cls", "\\w")]
+        body = [("try", [("match", ("re", rng.choice(rxs)))], rng.choice([None, ["nomatch"]]), [])]
     stmts = []
     if rng.random() < 0.3:
         stmts.append(("match", ("lit", b"s")))
@@ -847,7 +863,8 @@ def gen_spin_candidate(rng):
         outer = ("try", [outer], None, [act()] if rng.random() < 0.5 else [])
     stmts.append(outer)
     stmts.append(("match", ("lit", b"end")))
-    p = {"outs": [{"type": "int", "name": "t", "default": 0}, {"type": "int", "name": "u", "default": None}], "hooks": ["hk"],
+    p = {"outs": [{"type": "int", "name": "t", "default": 0}, {"type": "int", "name": "u", "default": None},
+                  {"type": "str", "name": "sb", "size": 3, "null": True, "default": None}], "hooks": ["hk"],
          "finish_codes": [], "yield_codes": [], "body": stmts}
     return p, pr_prog(p)
 
@@ -1196,7 +1213,7 @@ def gen_ambig_candidate(rng):
         b2 = [("match", ("lit", lit()))]
         return [("if", [(cond, b1)], b2)], "if"
     shape = r.choice(["open;B", "open;B", "optional;B", "optional-else-head;B", "optional-wait;B", "foreach-open;B", "try-open;B", "if-open;B",
-                      "case-overlap", "case-prefix", "case-open-clause;B", "greedy-tie", "greedy-3", "wait-open;B", "loop-break;B"])
+                      "case-overlap", "case-prefix", "case-open-clause;B", "greedy-tie", "greedy-3", "wait-open;B", "loop-break;B", "loop-open-if-break;B", "loop-open-if-break;B", "open;inverted"])
     body = [("match", ("lit", b"q"))]
     tag = shape
     if shape == "open;B":
@@ -1232,6 +1249,19 @@ def gen_ambig_candidate(rng):
         body += [("gcase", [(prios[i], [pats[i]], [mark(i), ("match", ("lit", b";"))]) for i in range(len(pats))])]
     elif shape == "wait-open;B":
         b, t = B(); body += [("wait", ("re", ("seq", [("c", r.choice(AB)), ("plus", ("c", r.choice(AB)))])))] + b; tag += ":" + t
+    elif shape == "loop-open-if-break;B":
+        b, t = B()
+        brk = r.choice([[("break", None)], [("if", [(("bin", "==", ("var", "n0"), ("num", 2)), [("break", None)])], None)]])
+        ch = r.choice(AB)
+        others = bytes(x for x in AB if x != ch)
+        inner = [("if", [(("bin", "==", ("var", "n0"), ("num", 1)), brk + [("match", ("lit", bytes([r.choice(others)])))])], [("match", ("lit", bytes([r.choice(others)])))])]
+        if r.random() < 0.6:
+            b, t = [("match", ("lit", bytes([ch]) + lit(1)))], "lit-continuing"
+        body += [("loop", None, [("match", ("re", ("plus", ("c", ch))))] + inner)] + b; tag += ":" + t
+    elif shape == "open;inverted":
+        first = r.choice([("match", ("re", open_re())), ("optional", [("match", pat())])])
+        foll = r.choice([("re", ("any",)), ("re", ("set", [(r.choice(AB),) * 2], True)), ("re", ("seq", [("set", [(r.choice(AB),) * 2], True), ("c", r.choice(AB))]))])
+        body += [first, ("match", foll), ("match", ("lit", b";"))]
     elif shape == "loop-break;B":
         b, t = B()
         body += [("loop", None, [("case", [([("lit", lit(1))], [("break", None)]), (["else"], [])]), ("match", pat(False))])] + b; tag += ":" + t
@@ -1289,6 +1319,8 @@ def gen_case_program(rng):
     if greedy:
         cls = []
         for i in range(r.randint(2, 4)):
+            # (known finding C08: an action-only clause of a greedy case runs as soon as its pattern completes, although a longer
+            # match may follow; greedy clause bodies are therefore generated with a consuming statement behind the marker)
             mark = [("yield", ycodes[i])] if yields else [("hook", hooks[i]), ("match", ("lit", b";"))]
             cls.append((r.choice([None, None, 1, 1, 2]), [r.choice([("re", ("plus", ("cls", "\\w"))), ("re", ("plus", ("set", [(97, 100)], False))), pat(), ("lit", lit(2)), ("lit", lit(3))])], mark))
         inner = ("gcase", cls)
@@ -1301,7 +1333,8 @@ def gen_case_program(rng):
         cls = []
         for i in range(ncl):
             pats = [pat() for _ in range(r.randint(1, 2))]
-            b = r.choice([[("hook", hooks[i])], [("hook", hooks[i]), ("match", ("lit", lit(1)))], [("match", ("lit", lit(1))), ("hook", hooks[i])], []])
+            b = r.choice([[("hook", hooks[i])], [("hook", hooks[i]), ("match", ("lit", lit(1)))], [("match", ("lit", lit(1))), ("hook", hooks[i])], [],
+                          [("hook", hooks[i]), ("optional", [("match", ("lit", lit(1)))])], [("assign", "n0", ("num", i + 1)), ("optional", [("match", ("lit", b"z"))])]])
             cls.append((pats, b))
         e = r.random()
         if e < 0.3:
@@ -1315,7 +1348,9 @@ def gen_case_program(rng):
             body.append(("try", [cs], r.choice([["nomatch"], None]), handler))
         else:
             body.append(cs)
-        body += [("hook", hooks[3]), ("match", ("lit", b"\n"))]
+        # (known finding C01 lost-finish-actions: no action directly behind a case one of whose clause bodies can end by matching nothing)
+        nullable_end = any(b and b[-1][0] == "optional" for pats, b in cls)
+        body += ([] if nullable_end else [("hook", hooks[3])]) + [("match", ("lit", b"\n"))]
     p = {"outs": outs, "hooks": hooks, "finish_codes": [], "yield_codes": ycodes if yields else [], "body": body}
     return p, pr_prog(p), (["-fyield-support"] if yields else [])
 
@@ -1330,7 +1365,12 @@ def gen_wait_program(rng):
     def lit(n=None):
         return bytes(r.choice(AB) for _ in range(n or r.randint(2, 4)))
     def wpat():
-        k = r.choice(["lit", "lit", "casei", "re", "re", "re", "concat"])
+        k = r.choice(["lit", "lit", "casei", "re", "re", "re", "concat", "inv-led"])
+        if k == "inv-led":
+            # begins with a repeated inverted class / wildcard whose excluded symbol is matched next: the start state rejects only End
+            c = r.choice(AB)
+            head = r.choice([("star", ("set", [(c, c)], True)), ("star", ("any",)), ("opt", ("set", [(c, c)], True))])
+            return ("re", ("seq", [head, ("c", c)] + [("c", r.choice(AB)) for _ in range(r.randint(0, 2))]))
         if k == "lit": return ("lit", lit())
         if k == "casei": return ("casei", lit())
         if k == "re": return ("re", _rx(r, AB))
@@ -1339,7 +1379,7 @@ def gen_wait_program(rng):
             {"type": "str", "name": "s0", "size": r.choice([3, 8]), "null": True, "default": None}]
     w = ("wait", wpat())
     after = [("hook", "h0"), ("match", ("lit", r.choice([b";", b"a", b"<"])))]
-    shape = r.choice(["plain", "plain", "try", "loop", "foreach", "append-before", "two", "handler"])
+    shape = r.choice(["plain", "plain", "try", "loop", "foreach", "append-before", "two", "handler", "after-open", "after-open"])
     if shape == "plain":
         body = [w] + after
     elif shape == "try":
@@ -1352,9 +1392,38 @@ def gen_wait_program(rng):
         body = [("append", "s0", ("lit", lit(2))), w] + after
     elif shape == "two":
         body = [w, ("hook", "h1"), ("wait", wpat())] + after
+    elif shape == "after-open":
+        opn = ("re", r.choice([("plus", ("set", [(r.choice(AB),) * 2, (r.choice(AB),) * 2], True)), ("plus", ("set", [(97, 98)], False)), ("seq", [("c", r.choice(AB)), ("star", ("set", [(r.choice(AB),) * 2], True))])]))
+        inner = [("match", opn), ("wait", ("lit", lit(1))) if r.random() < 0.6 else w]
+        body = [("try", inner, r.choice([None, ["nomatch"]]), [("hook", "h1")])] + after if r.random() < 0.7 else inner + after
     else:
         body = [("try", [("match", ("lit", lit(2)))], ["nomatch"], [w, ("hook", "h1")])] + after
     body.append(("match", ("lit", b"\n")))
-    eof = r.random() < 0.3
+    eof = r.random() < (0.6 if shape == "after-open" else 0.3)
     p = {"outs": outs, "hooks": hooks, "finish_codes": [], "yield_codes": [], "body": body}
     return p, pr_prog(p), (["-feof-support"] if eof else [])
+
+
+def gen_loop_shape(rng):
+    """(program, source, flags): loops that start with action statements (self-referential assignment, hook, conditional
+    break) and whose body can end by matching nothing (optional at the end, or at the end of a case clause), so that the
+    next iteration is entered through different transitions; followed by a marker."""
+    r = rng
+    lit = lambda n=None: bytes(r.choice(b"abcpx") for _ in range(n or r.randint(1, 2)))
+    outs = [{"type": "int", "name": "n0", "signed": None, "width": None, "default": None}]
+    head = []
+    for _ in range(r.randint(1, 2)):
+        head.append(r.choice([("assign", "n0", ("bin", "+", ("var", "n0"), ("num", 1))), ("hook", "h0"),
+                              ("if", [(("bin", "==", ("var", "n0"), ("num", r.choice([2, 3]))), [("hook", "h1")])], None)]))
+    opt = ("optional", [("match", ("lit", lit(2)))] + ([("hook", "h1")] if r.random() < 0.4 else []))
+    k = r.choice(["case-opt", "case-opt", "tail-opt", "try-opt"])
+    if k == "case-opt":
+        body = head + [("case", [([("lit", b";")], [("break", None)]), ([("re", ("cls", "\\d"))], [opt] if r.random() < 0.7 else [("match", ("lit", lit(1))), opt]),
+                                 ([("lit", b"!")], [("hook", "h1")])])]
+    elif k == "tail-opt":
+        body = head + [("case", [([("lit", b";")], [("break", None)]), (["else"], [])]), ("match", ("re", ("cls", "\\d"))), opt]
+    else:
+        body = head + [("case", [([("lit", b";")], [("break", None)]), (["else"], [])]), ("try", [("match", ("re", ("cls", "\\d"))), opt], ["nomatch"], [("match", ("lit", b"?"))])]
+    stmts = ([("match", ("lit", b"q"))] if r.random() < 0.5 else []) + [("loop", None, body), ("hook", "h2"), ("match", ("lit", b"\n"))]
+    p = {"outs": outs, "hooks": ["h0", "h1", "h2"], "finish_codes": [], "yield_codes": [], "body": stmts}
+    return p, pr_prog(p), []
